@@ -239,18 +239,38 @@ func (cl *Cluster) Close() {
 // Primary returns the node that currently reports itself primary (nil if none).
 func (cl *Cluster) Primary() *CNode {
 	for _, n := range cl.Nodes {
-		if n.Up && n.Store.IsPrimary() {
+		if n.holdsPrimary() {
 			return n
 		}
 	}
+	for _, n := range cl.Nodes {
+		if n.Up && n.Store.IsPrimary() {
+			return n // no holder on the service side: the node that still believes it is primary
+		}
+	}
 	return nil
+}
+
+// holdsPrimary: the node believes it is primary and, where the scripted lease
+// service is in use, the service agrees. (A node whose lease was expired on the
+// service side goes on believing it is primary until its next renewal; such a
+// node is not "the primary" for the harness.)
+func (n *CNode) holdsPrimary() bool {
+	if !n.Up || !n.Store.IsPrimary() {
+		return false
+	}
+	if n.Opts.MakeLeaser != nil {
+		return true
+	}
+	h, _ := n.cl.Svc.Holder()
+	return h == n.Name
 }
 
 // WaitPrimary waits until exactly the given node is primary.
 func (cl *Cluster) WaitPrimary(n *CNode, d time.Duration) error {
 	deadline := time.Now().Add(d)
 	for {
-		if n.Store.IsPrimary() {
+		if n.holdsPrimary() {
 			return nil
 		}
 		if time.Now().After(deadline) {
@@ -265,10 +285,10 @@ func (cl *Cluster) WaitPrimary(n *CNode, d time.Duration) error {
 // node's Acquire is scripted to fail, the current primary is demoted (or its
 // lease expired), and target picks the lease up.
 func (cl *Cluster) MakePrimary(target *CNode, viaExpiry bool, d time.Duration) error {
-	cur := cl.Primary()
-	if cur == target {
+	if target.holdsPrimary() {
 		return nil
 	}
+	cur := cl.Primary()
 	for _, n := range cl.Nodes {
 		if n != target {
 			cl.Svc.SetAcquireErr(n.Name, litefs.ErrPrimaryExists)
@@ -280,8 +300,12 @@ func (cl *Cluster) MakePrimary(target *CNode, viaExpiry bool, d time.Duration) e
 		}
 	}()
 	if cur != nil {
-		cur.closeConns()
-		if viaExpiry {
+		for _, n := range cl.Nodes {
+			if n.Up && n.Store.IsPrimary() {
+				n.closeConns()
+			}
+		}
+		if viaExpiry || cur == target {
 			cl.Svc.Expire()
 		} else {
 			cur.Store.Demote()
@@ -539,6 +563,7 @@ type FaultClient struct {
 
 	StreamsOpened int
 	BytesRead     int64
+	refused       int // stream attempts turned away while Refuse was set
 
 	// Inject, if set, replaces the next stream: the replica receives exactly these
 	// bytes (a scripted primary) and then end-of-stream. One shot.
@@ -681,20 +706,31 @@ func (fc *FaultClient) CutAll() {
 	}
 }
 
-// Isolate refuses new streams and closes the live ones until none is left (a
+// Isolate refuses new streams and closes the live ones, and returns once the
+// node's replication loop has come back and been turned away: that loop is one
+// goroutine, so from then on nothing received earlier is still being applied. (A
 // connection attempt that was already under way when Refuse was set can still
-// produce a stream after the first cut).
+// produce a stream after the first cut; a frame that was already read is still
+// applied after the cut.) A node that is not trying to connect at all - a primary,
+// a stopped node - is given up on after a while.
 func (fc *FaultClient) Isolate() {
-	fc.Refuse(true)
-	for quiet := 0; quiet < 3; {
+	fc.mu.Lock()
+	fc.refuse = true
+	n0 := fc.refused
+	fc.mu.Unlock()
+	deadline := time.Now().Add(3 * time.Second)
+	for quiet := 0; ; {
 		fc.CutAll()
 		fc.mu.Lock()
-		n := len(fc.streams)
+		n, turned := len(fc.streams), fc.refused > n0
 		fc.mu.Unlock()
 		if n == 0 {
 			quiet++
 		} else {
 			quiet = 0
+		}
+		if quiet >= 3 && (turned || time.Now().After(deadline)) {
+			return
 		}
 		time.Sleep(300 * time.Microsecond)
 	}
@@ -770,6 +806,9 @@ func (fc *FaultClient) Commit(ctx context.Context, primaryURL string, nodeID uin
 func (fc *FaultClient) Stream(ctx context.Context, primaryURL string, nodeID uint64, posMap map[string]ltx.Pos, filter []string) (litefs.Stream, error) {
 	fc.mu.Lock()
 	refuse := fc.refuse
+	if refuse {
+		fc.refused++
+	}
 	fc.mu.Unlock()
 	if refuse {
 		return nil, fmt.Errorf("dial: %w", syscall.ECONNREFUSED)
